@@ -78,10 +78,14 @@ def run(ctx):
         env["HRUN_TIMEOUT"] = "10"
         lines = [problems.to_line(p) for p in ps]
         runs, _ = swrap.run_specs(bdir, lines, env=env)
-        n1 = n2 = 0
+        n1 = n2 = unrelated = 0
         worst = {}
         for r in runs:
             ctx.case(r.spec + "#%d" % getattr(r, "part", 1))
+            if r.status != "ok" and not any(c.stop for c in r.calls):
+                # crash / hang of a run in which no stop had been requested yet: not a statement about forced stops (C03, C10)
+                unrelated += 1
+                continue
             if r.status != "ok":
                 alg = A.name(int(swrap.kvs(r.spec).get("alg", -1)))
                 ctx.violation({"alg": alg, "cause": "crash" if r.status.startswith("CRASH") else "no termination within the watchdog time"},
@@ -101,7 +105,7 @@ def run(ctx):
                 if ri.ret == -5:
                     ctx.violation({"alg": ri.name, "cause": "flag not cleared for the next run"}, "%s: the run after a forced stop returned FORCED_STOP again without a new request" % ri.name,
                                   {"stream": "run", "spec": r.spec})
-        ctx.corr["forced stops"] = {"first_runs": n1, "second_runs_on_same_object": n2, "max_further_callbacks_seen": worst}
+        ctx.corr["forced stops"] = {"first_runs": n1, "second_runs_on_same_object": n2, "crash_or_hang_before_any_stop_request (see C03/C10)": unrelated, "max_further_callbacks_seen": worst}
         try:
             firsts = [r for r in runs if getattr(r, "part", 1) == 1]
             res = swrap.replay_all(firsts, swrap.wrap_caps_line(ctx.alg))
